@@ -44,13 +44,26 @@ KNOWN_SIG = "instance-ids-depend-on-map-iteration-in-collector-finish"
 WARM_SIG = "warm-session-reuses-archive-compiled-without-later-instances"
 
 
+PRIVATE = {}     # private copies of the binaries: other checks may rebuild .work/bin/* from a newer /repo while this one runs
+
+
 def prepare(ctx):
     C.ensure_go_harness("c17")
     C.ensure_gopherjs()
+    d = os.path.join(ctx.work, "bin")
+    os.makedirs(d, exist_ok=True)
+    with C.Lock("gobuild"):
+        for name in ("gopherjs", "h_c17"):
+            shutil.copy2(os.path.join(C.BIN, name), os.path.join(d, name))
+            PRIVATE[name] = os.path.join(d, name)
+
+
+def binary(name):
+    return PRIVATE.get(name) or os.path.join(C.BIN, name)
 
 
 def call_harness(inp, timeout=900):
-    rc, out, err = C.sh2([os.path.join(C.BIN, "h_c17")], inp=json.dumps(inp).encode(), timeout=timeout)
+    rc, out, err = C.sh2([binary("h_c17")], inp=json.dumps(inp).encode(), timeout=timeout)
     if rc != 0:
         raise C.BuildError("c17 harness failed: " + err[-800:])
     return json.loads(out)
@@ -384,11 +397,12 @@ def dangling_uses(js):
 
 
 def first_diff(a, b):
-    la, lb = a.split("\n"), b.split("\n")
-    for i, (x, y) in enumerate(zip(la, lb)):
-        if x != y:
-            return dict(line=i + 1, a=x[:300], b=y[:300])
-    return dict(line=min(len(la), len(lb)) + 1, a="(end)", b="(end)")
+    """line number and the text around the first differing character"""
+    n = min(len(a), len(b))
+    i = next((k for k in range(n) if a[k] != b[k]), n)
+    line = a.count("\n", 0, i) + 1
+    lo = max(i - 100, a.rfind("\n", 0, i) + 1)
+    return dict(line=line, offset=i, a=a[lo:i + 200].split("\n")[0], b=b[lo:i + 200].split("\n")[0])
 
 
 def write_tree(d, files, order):
@@ -412,7 +426,7 @@ def gopherjs(args, cwd, env=None, timeout=1500):
     e.setdefault("GOMAXPROCS", "4")     # many compiler processes run side by side; 16 threads each only adds contention
     if env:
         e.update(env)
-    return C.sh([os.path.join(C.BIN, "gopherjs")] + args, cwd=cwd, env=e, timeout=timeout)
+    return C.sh([binary("gopherjs")] + args, cwd=cwd, env=e, timeout=timeout)
 
 
 def check_output_sort_sites(ctx, prog, js, icases, iinfo, stats):
@@ -628,9 +642,25 @@ def builds(ctx, progs, info, plans):
     ctx.cov["import_lists_validated_against_model"] = len(icases)
 
 
+def preludes(ctx):
+    """the five prelude files through the real sourcemapx.Filter.WriteJS (esbuild), plain and minified, n times each"""
+    n = 20 if ctx.quick else 300
+    res = call_harness(dict(sorts=[], collectors=[], preludes=n)).get("preludes") or []
+    for r in res:
+        ctx.count(["prelude", r["name"], r["minify"]], nontrivial=True)
+        if len(r["hashes"]) != 1:
+            ctx.violation("prelude-transform-differs-between-identical-runs",
+                          "%s (%s) came out of Filter.WriteJS in %d different forms in %d runs; at byte %d: %r <> %r"
+                          % (r["name"], "minified" if r["minify"] else "plain", len(r["hashes"]), r["runs"], r.get("diff_at", -1),
+                             (r.get("diff_a") or "")[60:120], (r.get("diff_b") or "")[60:120]),
+                          dict(kind="prelude", result=r))
+    ctx.cov["prelude_transforms"] = sum(r["runs"] for r in res)
+
+
 def correspond(ctx):
     sort_sites(ctx)
-    ctx.log("sort sites done")
+    preludes(ctx)
+    ctx.log("sort sites and preludes done")
     r = ctx.rng("programs")
     nprog = int(os.environ.get("VERIF_C17_PROGS", "0")) or (24 if ctx.quick else 150)   # override only for debugging the check
     progs = [G.witness_program(6), G.minimal_witness(), G.warm_witness()] + [G.gen_program(r, i) for i in range(nprog)]
